@@ -485,6 +485,12 @@ fn run_rustfmt(value: &str) -> Option<String> {
     }
 }
 
+/// Creates an identifier for a WGSL name.
+/// Names that are keywords in Rust but not in WGSL like `in` or `dyn` use raw identifiers.
+fn name_to_ident(name: &str) -> Ident {
+    syn::parse_str::<Ident>(name).unwrap_or_else(|_| Ident::new_raw(name, Span::call_site()))
+}
+
 fn indexed_name_to_ident(name: &str, index: u32) -> Ident {
     Ident::new(&format!("{name}{index}"), Span::call_site())
 }
